@@ -16,7 +16,8 @@ from vf import history, reader, tables
 from vf.common import CaseResult, Check, Scratch, rng_for
 from vf.interpose import Interposer
 
-HISTORIES = ["clean", "orphan_next", "orphan_equal_older_first", "orphan_equal_older_last", "orphan_equal_newer", "clean_expired"]
+HISTORIES = ["clean", "orphan_next", "orphan_equal_older_first", "orphan_equal_older_last", "orphan_equal_newer", "clean_expired",
+             "long", "two_handles"]
 OPS = ["load", "create", "append", "gc", "append_lose_again", "create_listfail_once", "create_listfail_persistent", "load_listfail_persistent", "create_scandirfail_listfail_persistent"]
 
 
@@ -71,6 +72,24 @@ def build(hist: str, root: str, ip: Interposer) -> Dict[str, Any]:
         out = h.apply(op)
         assert out["ok"], out
         h.observe(op, True)
+    stale_handle = None
+    if hist == "long":
+        # more than ten versions: v10, v11, ... must outrank v9 in every comparison
+        for _ in range(9):
+            out = h.apply(("append", 1))
+            assert out["ok"], out
+            h.observe(("append",), True)
+    if hist == "two_handles":
+        # a long-lived handle A that committed earlier, then another handle B commits twice: A's in-memory idea of
+        # the table is stale when the pointer is damaged and A is used again
+        import datashard as ds
+        stale_handle = ds.load_table(root)
+        stale_handle.append_records(tables.rows(h.fresh_ids(1)))
+        h.observe(("append-by-A",), True)
+        for _ in range(2):
+            out = h.apply(("append", 1))
+            assert out["ok"], out
+            h.observe(("append-by-B",), True)
     if hist == "clean_expired":
         out = h.apply(("expire", 1, 0, "plain"))
         assert out["ok"], out
@@ -111,7 +130,7 @@ def build(hist: str, root: str, ip: Interposer) -> Dict[str, Any]:
         om = reader.read_metadata_file(h.blobs(), orph)
         orph_ids = [s["snapshot_id"] for s in om["snapshots"] if s["snapshot_id"] not in committed["ids"]]
     version = int(h.pointers[-1].split("-")[0].split(".")[0][1:])
-    return {"h": h, "cur": h.pointers[-1], "old": h.pointers[-2], "orph": orph, "committed": committed,
+    return {"h": h, "stale_handle": stale_handle, "cur": h.pointers[-1], "old": h.pointers[-2], "orph": orph, "committed": committed,
             "orph_ids": orph_ids, "version": version, "flipped": list(h.pointers)}
 
 
@@ -315,6 +334,11 @@ class C10(Check):
                         t = ds.create_table(root, schema=other)
                     else:
                         t = ds.load_table(root)
+                    if b.get("stale_handle") is not None and case["op"] in ("load", "append", "append_lose_again", "gc"):
+                        t = b["stale_handle"]          # the handle that was open all along
+                        res.count("ops_through_stale_handle")
+                        if case["op"] == "load":
+                            t.scan()
                     if case["op"] in ("append", "append_lose_again"):
                         vers_before = reader.metadata_versions(reader.Blobs.local(root))
                         t.append_records(tables.rows([9001]))
@@ -377,6 +401,15 @@ class C10(Check):
                         older = not set(exp_ids) <= set(lib_ids)
                         res.violation(self._sig('append-on-older-version' if older else 'snapshot-list-changed', sigctx),
                                       f"after append snapshot list {lib_ids} vs committed {exp_ids}", wit)
+                        return
+                # the metadata log must name files that exist (the chain of superseded versions is what audits follow)
+                if case["op"] in ("append", "append_lose_again") and pclass not in ("stale", "names-uncommitted"):
+                    have = set(reader.Blobs.local(root).listing())
+                    missing_log = [e.get("metadata-file") for e in (md.metadata_log or [])
+                                   if str(e.get("metadata-file", "")).lstrip("/") not in have]
+                    if missing_log:
+                        res.violation(f"metadata-log-names-missing-file:{sigctx}",
+                                      f"after the append the metadata log lists {missing_log[:2]}, which do not exist", wit)
                         return
                 want_schema = [(s["schema_id"], s["fields"]) for s in C["schemas"]]
                 if lib_schema != want_schema:
